@@ -90,6 +90,8 @@ class C11(Prop):
             scn['options']['report_step'] = scn['options']['hyd_step']     # the INP writer cannot print 'ALL'
         scn['history'] = [{'op': h, 'k': rng.irange(0, 8), 'ce': rng.chance(0.5), 'how': rng.pick(['timelimit', 'maxiter', 'singular']),
                            'noise': rng.irange(0, 40)} for h in hist]
+        if scn['patterns'] and rng.chance(0.15):
+            scn['pattern_objects'] = True     # patterns added as Pattern objects that carry time options of their own
         return scn
 
     def shrink_candidates(self, scn):
